@@ -66,7 +66,14 @@ func evalRead(s *Stores, tx *bbolt.Tx, op Op) (string, error) {
 		}
 	case "query":
 		store := s.ByName(op.S)
-		ids, cnt, err := store.QueryIds(tx, queryText(op))
+		var ids []string
+		var cnt int64
+		var err error
+		if op.N == 5 {
+			ids, cnt, err = store.QueryIdsC(tx, s.sharedQ[op.S]) // the same parsed query object in every reader
+		} else {
+			ids, cnt, err = store.QueryIds(tx, queryText(op))
+		}
 		if err != nil {
 			return "", err
 		}
@@ -241,6 +248,14 @@ func modelRead(m *Model, op Op) string {
 				}
 			}
 			return fmt.Sprintf("%s#%d", strings.Join(ids, ","), len(ids))
+		case 5:
+			var ids []string
+			for _, id := range listed {
+				if n := m.People[id].Name; n == "n1" || n == "n3" || n == "n5" {
+					ids = append(ids, id)
+				}
+			}
+			return fmt.Sprintf("%s#%d", strings.Join(ids, ","), len(ids))
 		}
 		return fmt.Sprintf("%s#%d", strings.Join(listed, ","), len(listed))
 	case "iterate":
@@ -381,7 +396,7 @@ func (g *gen) genReads(n int) []Op {
 			if g.cfg.Profile == "conc" {
 				// plus two composite-symbol shapes the existing suite pins (linked set . field, fk . field): every
 				// evaluation builds the symbol chain anew, which is where shared evaluation state would show
-				op.N = g.r.IntN(5)
+				op.N = g.r.IntN(6) // 5: the run's shared pre-parsed query
 			}
 			switch op.N {
 			case 1, 3:
